@@ -718,6 +718,7 @@ fn run_case<K: Kind>(c: &CaseIn) -> Report {
     let mut last_cached_len: Option<usize> = None;
     let mut cache_poison: Option<usize> = None;
     let mut dead = false;
+    let mut ref_off = false;
     let trace = std::env::var("READS_TRACE").is_ok();
     if trace {
         eprintln!("case {} {}", c.kind, c.ssc);
@@ -905,9 +906,9 @@ fn run_case<K: Kind>(c: &CaseIn) -> Report {
                     pushed.get(i - stored).copied()
                 };
                 if view != cur.at(i) || cur.vals.len() != len {
-                    rep.o.push(format!("reference-differs-from-overlay-view at {i}"));
                     rep.m.insert("reference-off".into());
                     dead = true;
+                    ref_off = true;
                     break;
                 }
             }
@@ -942,15 +943,20 @@ fn run_case<K: Kind>(c: &CaseIn) -> Report {
                 let view = if i < stored { flushed.vals.get(i).copied() } else { pushed.get(i - stored).copied() };
                 view != cur.at(i)
             }) {
-                rep.o.push("reference-differs-from-page-view".into());
+                // the harness's own reference lost track of the vector (rollback sequences it does not follow):
+                // the state dump is still checked by the model (`wf`), the reads of this phase are not drawn
                 rep.m.insert("reference-off".into());
                 dead = true;
+                ref_off = true;
             }
         }
         rep.iline.push(' ');
         rep.iline.push_str(&dump);
         rep.iline.push_str(" R");
         if dead {
+            if ref_off {
+                rep.o.push(format!("wf {}", wf as u8));
+            }
             break 'phases;
         }
         rep.o.push(format!("wf {}", wf as u8));
